@@ -88,8 +88,8 @@ func ruleReadDBILoop(c *Check, rule string, forMarkers bool) {
 				}
 			} else {
 				// skipping an entry is only allowed through the optional filter hook
-				hookSet, hf := boolCond(p, "isnil(param:s.hooks.FilterReadDBI)", -1)
-				inc, incf := condTruth(p, "dyn:param:s.hooks.FilterReadDBI@", -1)
+				hookSet, hf := boolCond(p, "isnil("+param(fn, 0)+".hooks.FilterReadDBI)", -1)
+				inc, incf := condTruth(p, "dyn:"+param(fn, 0)+".hooks.FilterReadDBI@", -1)
 				if !(hf && !hookSet && incf && !inc) {
 					bad++
 					c.Bad(rule, fnReadDBI+"/entry-skipped", "an entry read by the cursor is not appended to the snapshot on a path that is not the explicit filter hook returning false: live entries or deletion markers would be missing from the dump", c.pathPos(p), describe(c, p))
@@ -369,6 +369,7 @@ func ruleSendNaming(c *Check, rule string) {
 
 // ruleReadDBIFlags: flags of the original DBI, dupsort => transform (C06-R6, C20-R5).
 func ruleReadDBIFlags(c *Check, rule, ruleTransform string) {
+	origName := param(c.P.Func(fnReadDBI), 3)
 	fn, paths := c.walkFn(rule, fnReadDBI, WalkConfig{Memo: true,
 		KeepEvent: func(e *Event) bool {
 			if e.Kind == "ret" {
@@ -378,7 +379,7 @@ func ruleReadDBIFlags(c *Check, rule, ruleTransform string) {
 		},
 		KeepAtom: func(a Atom) bool {
 			s := a.String()
-			return strings.Contains(s, "origDBIName") || strings.Contains(s, "Flags@") || strings.Contains(s, "DupSortHack") || strings.Contains(s, "OpenDBI@") || strings.Contains(s, "OpenCursor@")
+			return strings.Contains(s, origName) || strings.Contains(s, "Flags@") || strings.Contains(s, "DupSortHack") || strings.Contains(s, "OpenDBI@") || strings.Contains(s, "OpenCursor@")
 		}})
 	if paths == nil {
 		return
